@@ -149,13 +149,17 @@ def mc_or_die(module, cfg, expect_actions=None, **kw):
     return r
 
 
-def tlc_trace(module, cfg, trace, strict, timeout=3600, name=None, mem="4g"):
+def tlc_trace(module, cfg, trace, strict, timeout=3600, name=None, mem="4g", early=None):
     """Validate an ndjson trace against spec/<module>.tla. Returns dict(accepted, rejected_at, states)."""
     name = name or (module + ("_s" if strict else "_l"))
     md = workdir("tv_" + name)
     cmd = ["tlc", "-workers", "1", "-metadir", md, "-cleanup", "-noGenerateSpecTE", "-config",
            os.path.join(SPEC, cfg), os.path.join(SPEC, module + ".tla")]
-    env = {"TRACE": trace, "STRICT": "1" if strict else "0",
+    # early: stop at the first behaviour that explains the whole trace (lenient mode: the rest of the state space only
+    # holds other explanations of the same trace); a rejected trace is still explored exhaustively
+    if early is None:
+        early = not strict
+    env = {"TRACE": trace, "STRICT": "1" if strict else "0", "EARLY": "1" if early else "0",
            "JAVA_TOOL_OPTIONS": "-Xss1g -Xmx%s -Dtlc2.tool.queue.IStateQueue=StateDeque" % mem}
     t0 = time.time()
     rc, out = sh(cmd, timeout=timeout, cwd=md, env=env)
@@ -173,7 +177,7 @@ def tlc_trace(module, cfg, trace, strict, timeout=3600, name=None, mem="4g"):
     m = re.search(r"Invariant (\S+) is violated", out)
     if m:
         res["invariant"] = m.group(1)
-    if "Model checking completed. No error has been found." in out:
+    if "Model checking completed. No error has been found." in out or ('"ACCEPTED_EARLY"' in out and res["rejected_at"] is None and res["invariant"] is None):
         res["accepted"] = True
     elif res["rejected_at"] is None and res["invariant"] is None:
         res["error"] = out[-3000:]
